@@ -394,6 +394,9 @@ class ImplMgr:
             exc = "RecursionError"
         except Exception as e:  # noqa
             exc = type(e).__name__
+            # a KeyError whose key is a reference (or a task) comes from the manager's own tables, not from the data
+            if isinstance(e, KeyError) and e.args and isinstance(e.args[0], (xr.BaseRef,)):
+                extra["internal_keyerror"] = str(e.args[0])
         hub.fault_in = None if kind != "fault" else hub.fault_in
         line = dict(op)
         impl = self.observe(exc)
